@@ -172,7 +172,7 @@ def steps(src, limit=None):
     pkg = _PKG
     lim = limit or 1 << 62
 
-    cpu_lim = max(CPU_BUDGET, len(src) / 200.0) if limit else None
+    cpu_lim = max(CPU_BUDGET, len(src) / 200.0) if (limit and not _NO_CPU_LIMIT[0]) else None
     t_start = _utime()
 
     def prof(frame, event, arg):
@@ -214,7 +214,7 @@ def steps_lines(src, limit=None):
     pkg = _PKG
 
     lim = limit or 1 << 62
-    cpu_lim = max(CPU_BUDGET, len(src) / 200.0) if limit else None
+    cpu_lim = max(CPU_BUDGET, len(src) / 200.0) if (limit and not _NO_CPU_LIMIT[0]) else None
     t_start = _utime()
 
     def local(frame, event, arg):
@@ -268,6 +268,40 @@ def in_big_thread(fn, *a):
     return out[0][1]
 
 
+_NO_CPU_LIMIT = [False]
+
+
+def cpu_alarm_confirmed(src, prev_src):
+    """A CPU budget hit is a hint, never a verdict: on an oversubscribed VM the
+    user-mode time charged to a thread was seen to be several hundred times the
+    work it did (32 s for a parse of 0.1 s).  The verdict comes from the number
+    of machine instructions a fresh interpreter executes for the same text
+    (valgrind; independent of load): -> (True, why) the input really explodes,
+    (False, why) it does not, (None, why) cannot be decided here."""
+    from .. import icount
+
+    try:
+        base = icount.baseline()
+        a = icount.instructions(src, timeout=1200) - base
+    except icount.Unavailable as e:
+        if "exceeded" in str(e):
+            return True, "under valgrind the same input did not finish within 1200 s (inputs of this size take under 20 s there)"
+        return None, str(e)
+    per_char = a / float(max(len(src), 1))
+    if prev_src is not None:
+        try:
+            b = icount.instructions(prev_src, timeout=1200) - base
+        except icount.Unavailable as e:
+            return None, str(e)
+        prev_per_char = b / float(max(len(prev_src), 1))
+        if per_char > 4 * prev_per_char and per_char > 400000:
+            return True, "%d instructions for %d characters against %d for %d characters of the size before" % (a, len(src), b, len(prev_src))
+        return False, "%d instructions for %d characters, %d for %d characters of the size before" % (a, len(src), b, len(prev_src))
+    if per_char > 5000000:
+        return True, "%d instructions for %d characters (ordinary input: 30 000 - 300 000 per character)" % (a, len(src))
+    return False, "%d instructions for %d characters" % (a, len(src))
+
+
 CPU_BUDGET = 15.0  # seconds of user-mode thread CPU time for one parse of a family member (the unchanged tree needs < 0.1 s)
 FIRST_SIZE_BUDGET = 3000000  # events; the smallest members of all families take < 60 000 on the unchanged tree
 RATIO = 2.3
@@ -289,7 +323,21 @@ def check_family(name, builder, ks, st, case, measure=None):
         if ok == "budget-cpu":
             # (CPU time of this thread, 1000x above what the unchanged tree needs for
             # inputs of this length: work inside C-level operations that events do not see)
-            fail("growth", case, src[:400], "family %s: at k=%d (%d characters) the parse was abandoned after %.0f s of CPU time and %d events; the sizes before: %s" % (name, k, len(src), max(CPU_BUDGET, len(src) / 200.0), n, series), "short-input-explodes")
+            verdict, why = cpu_alarm_confirmed(src, builder(prev[0]) if prev is not None else None)
+            if verdict is None:
+                st.classes["cpu_budget_hit_undecided"] += 1
+                st.notes["cpu_budget_hit_undecided"] = "family %s k=%d: %s" % (name, k, why)
+                return True  # no claim for the rest of this family
+            if verdict is False:
+                # a busy machine, not the parser: measure again without the CPU limit
+                st.classes["cpu_budget_hit_not_confirmed_by_instruction_count"] += 1
+                _NO_CPU_LIMIT[0] = True
+                try:
+                    n, t, ok = measure(src, budget)
+                finally:
+                    _NO_CPU_LIMIT[0] = False
+        if ok == "budget-cpu":
+            fail("growth", case, src[:400], "family %s: at k=%d (%d characters) the parse was abandoned after %.0f s of CPU time and %d events, and %s; the sizes before: %s" % (name, k, len(src), max(CPU_BUDGET, len(src) / 200.0), n, why, series), "short-input-explodes")
         if ok == "budget" and prev is None:
             fail("growth", case, src[:400], "family %s: its smallest member (k=%d, %d characters) was abandoned after %d events - no input of a few hundred characters may cost that much" % (name, k, len(src), n), "short-input-explodes")
         if ok == "budget":
@@ -540,6 +588,43 @@ def lex_time(text, stop_at_error=False):
     return best
 
 
+def lex_alarm_confirmed(texts, kind, stop_at_error=False):
+    """Timing is a hint (see cpu_alarm_confirmed): the verdict on a slow or
+    super-linear lexer family comes from instruction counts of a fresh
+    interpreter lexing the same texts.  kind 'slow': one text, confirmed above
+    1.5e9 instructions (what 0.5 s of this interpreter executes at the very
+    least; lexing 300 characters takes about 1e6); kind 'superlinear': texts of
+    doubling sizes, confirmed if the count more than triples twice in a row.
+    -> (True | False | None, explanation)"""
+    from .. import icount
+
+    try:
+        base = icount.baseline(mode="lex")
+        vals = [icount.instructions(t, timeout=600, mode="lex", stop_at_error=stop_at_error) - base for t in texts]
+    except icount.Unavailable as e:
+        if "exceeded" in str(e):
+            return True, "under valgrind the lexer did not finish within 600 s"
+        return None, str(e)
+    why = "instructions executed: %s" % [(len(t), v) for t, v in zip(texts, vals)]
+    if kind == "slow":
+        return vals[0] > 1.5e9, why
+    bad = 0
+    for v1, v2 in zip(vals, vals[1:]):
+        bad = bad + 1 if (v2 > 20e6 and v2 > 3.0 * max(v1, 1)) else 0
+        if bad >= 2:
+            return True, why
+    return False, why
+
+
+def _lex_failure(st, case, text, detail, sig, texts, kind, stop_at_error=False):
+    verdict, why = lex_alarm_confirmed(texts, kind, stop_at_error)
+    if verdict is True:
+        st.failures.append(dict(subcheck="lexer-time", case=case, text=text, detail=detail + "; " + why, sig=sig))
+        return True
+    st.classes["timing_suspicions_not_confirmed" if verdict is False else "timing_suspicions_undecided"] += 1
+    return False
+
+
 def lex_shard(names):
     st = Stats()
     for name in names:
@@ -556,8 +641,7 @@ def lex_shard(names):
                 blown = (n, t)
                 break
             n = n * 2 if t < 0.002 else n + 2
-        if blown:
-            st.failures.append(dict(subcheck="lexer-time", case=case, text=f(4), detail="family %s: a %d-character input takes %.2f s to lex" % (name, len(f(blown[0])), blown[1]), sig="lexer-slow"))
+        if blown and _lex_failure(st, case, f(4), "family %s: a %d-character input takes %.2f s to lex" % (name, len(f(blown[0])), blown[1]), "lexer-slow", [f(blown[0])], "slow"):
             continue
         series = []
         for n in (64, 128, 256, 512):
@@ -567,8 +651,7 @@ def lex_shard(names):
                 break
         t300 = lex_time(f(300)[:300])
         st.evaluations += 1
-        if t300 > 1.0:
-            st.failures.append(dict(subcheck="lexer-time", case=case, text=f(8), detail="a 300-character input of family %s takes %.2f s to lex" % (name, t300), sig="lexer-slow"))
+        if t300 > 1.0 and _lex_failure(st, case, f(8), "a 300-character input of family %s takes %.2f s to lex" % (name, t300), "lexer-slow", [f(300)[:300]], "slow"):
             continue
         bad = 0
         for (n1, t1), (n2, t2) in zip(series, series[1:]):
@@ -577,7 +660,7 @@ def lex_shard(names):
             else:
                 bad = 0
             if bad >= 2:
-                st.failures.append(dict(subcheck="lexer-time", case=case, text=f(8), detail="family %s: lexing time %s grows > 3.5x per doubling twice in a row" % (name, [(n, round(t, 4)) for n, t in series]), sig="lexer-superlinear"))
+                _lex_failure(st, case, f(8), "family %s: lexing time %s grows > 3.5x per doubling twice in a row" % (name, [(n, round(t, 4)) for n, t in series]), "lexer-superlinear", [f(n) for n, _ in series], "superlinear")
                 break
         # a quadratic regex with a small constant needs thousands of characters
         # before it rises above the timing floor (1 ms at 512 characters, 1 s at
@@ -597,7 +680,7 @@ def lex_shard(names):
                 if bad >= 2:
                     again = [(n, lex_time(f(n), True)) for n, _ in long_series]
                     if all(b[1] > 0.02 and b[1] > 3.0 * a[1] for a, b in zip(again[-3:], again[-2:])):
-                        st.failures.append(dict(subcheck="lexer-time", case=case, text=f(8), detail="family %s: lexing time %s (re-measured %s) grows > 3x per doubling twice in a row on long inputs" % (name, [(n, round(t, 4)) for n, t in long_series], [(n, round(t, 4)) for n, t in again]), sig="lexer-superlinear"))
+                        _lex_failure(st, case, f(8), "family %s: lexing time %s (re-measured %s) grows > 3x per doubling twice in a row on long inputs" % (name, [(n, round(t, 4)) for n, t in long_series], [(n, round(t, 4)) for n, t in again]), "lexer-superlinear", [f(n) for n, _ in long_series], "superlinear", True)
                     else:
                         st.classes["timing_suspicions_not_confirmed"] += 1
                     break
